@@ -20,6 +20,7 @@ EXPLANATION = ("Sibling rules over every EnvironmentFilter that stores new['acti
                "transformer used for action is parameterised like the one used for actions; R4 Finalize wraps list rewards "
                "around the post-Repr actions and the reward classes compare by equality.")
 EXPLANATION += " R5: filters owning a table grown while reading are instantiated once per environment; R6: flat action streams are cut by the current row's length; R7: the encoding memo is keyed by whole-row equality."
+EXPLANATION += " R1 also: a positional `.rewards` shortcut is guarded by `<reward>.actions == old['actions']`; R3 also: action and actions are re-represented under the same switches; R8: EncodeCatRows copies nested rows before rewriting them."
 
 EF = "coba/environments/filters.py"
 PRIM = "coba/primitives.py"
